@@ -392,20 +392,21 @@ def eval_branch(ctx, c, oracle_only, b):
         """None, or what is wrong with `child` = op(parent)"""
         kind, idx, form = op
         w = parent.shape[1]
-        if child.shape[0] != parent.shape[0] or not np.array_equal(np.asarray(child[:, :w], dtype=float), np.asarray(parent, dtype=float)):
+        if child.shape[0] != parent.shape[0] or not np.array_equal(np.asarray(child[:, :w], dtype=float), np.asarray(parent, dtype=float), equal_nan=True):
             return 'the parent columns are not an unchanged prefix'
         if kind == 'dup':
             for j, src in enumerate(idx):
-                if not np.array_equal(np.asarray(child[:, w + j], dtype=float), np.asarray(parent[:, src], dtype=float)):
+                if not np.array_equal(np.asarray(child[:, w + j], dtype=float), np.asarray(parent[:, src], dtype=float), equal_nan=True):
                     return f'column {w + j} is not a copy of column {src}'
         elif kind == 'comb':
-            if not np.array_equal(np.asarray(child[:, w], dtype=float), np.asarray(parent[:, list(idx)], dtype=float).sum(axis=1)):
+            if not np.array_equal(np.asarray(child[:, w], dtype=float), np.asarray(parent[:, list(idx)], dtype=float).sum(axis=1), equal_nan=True):
                 return f'column {w} is not the sum of columns {list(idx)}'
         else:
             for j, src in enumerate(idx):
                 col = np.asarray(parent[:, src], dtype=float)
-                if np.all(col == col[0]):
-                    continue
+                new = np.asarray(child[:, w + j], dtype=float)
+                if parent.shape[0] < 4 or np.all(col == col[0]) or not np.all(np.isfinite(col)) or not np.all(np.isfinite(new)):
+                    continue                      # degenerate sources (too few samples, constant, non-finite): the correlation clause says nothing
                 with np.errstate(all='ignore'):
                     pr = float(pearsonr(col, np.asarray(child[:, w + j], dtype=float))[0])
                 if not abs(pr - 0.5) <= 1e-9:
